@@ -17,5 +17,27 @@ Theorem C25_ifac_history : forall maxc, 1 <= maxc -> forall ns m, fm_inv m -> Fo
 Proof. exact ifac_history. Qed.
 Print Assumptions C25_ifac_history.
 
+(* ifib (Dijkstra's logarithmic algorithm with its cache of the values below 250): equals the Fibonacci recurrence for every
+   n >= 0, F(-n) = (-1)^(n+1) F(n), for every sequence of calls *)
+Theorem C25_ifib : forall n, 0 <= n -> ifib_nonneg n = zfib n.
+Proof. exact ifib_nonneg_spec. Qed.
+Print Assumptions C25_ifib.
+Theorem C25_ifib_history : forall ns c, fc_inv c -> fib_calls c ns = map zfib_signed ns.
+Proof. exact ifib_history. Qed.
+Print Assumptions C25_ifib_history.
+Example C25_ifib_sample : fib_calls [] [10; -7; 10; 300; 0] = [55; 13; 55; 222232244629420445529739893461909967206666939096499764990979600; 0].
+Proof. vm_compute. reflexivity. Qed.
+(* ifac2 (double factorial with one memo dictionary per parity, values stored up to the cache limit): n!! for every n >= 0 and
+   every sequence of calls; the invariant includes that the keys of one parity are stored contiguously, without which a miss
+   below the largest key would return the wrong value *)
+Theorem C25_ifac2_call : forall maxc cs n, f2_pair_inv maxc cs -> 0 <= n ->
+  fst (ifac2_call maxc cs n) = zfact2 n /\ f2_pair_inv maxc (snd (ifac2_call maxc cs n)).
+Proof. exact ifac2_call_spec. Qed.
+Theorem C25_ifac2_history : forall maxc ns cs, f2_pair_inv maxc cs -> Forall (fun n => 0 <= n) ns ->
+  fac2_calls maxc cs ns = map zfact2 ns.
+Proof. exact ifac2_history. Qed.
+Print Assumptions C25_ifac2_history.
+Example C25_ifac2_initial : f2_pair_inv 1000 ([(0, 1)], [(1, 1)]).
+Proof. exact f2_init_inv. Qed.
 Example C25_initial_cache_ok : fm_inv {| fm_len := 2; fm_last := 1 |}.
 Proof. exact fm_init_inv. Qed.
